@@ -46,7 +46,7 @@ func (lam *Lambda) Call(s *Scope, args List, depth int) (result Object) {
 		restSym Symbol
 	)
 Aux:
-	for i, ad := range lam.Doc.Args {
+	for _, ad := range lam.Doc.Args {
 		if len(args) <= ai {
 			break
 		}
@@ -86,12 +86,9 @@ Aux:
 			for ai < len(args) {
 				a := args[ai]
 				if sym, ok := a.(Symbol); ok && 0 < len(sym) && sym[0] == ':' {
-					sym = sym[1:]
-					for j := i + 1; j < len(lam.Doc.Args); j++ {
-						if string(sym) == lam.Doc.Args[j].Name {
-							mode = keyMode
-							break Mode
-						}
+					if lam.isKey(string(sym[1:])) {
+						mode = keyMode
+						break Mode
 					}
 				}
 				ai++
@@ -109,7 +106,11 @@ Aux:
 					if len(args) <= ai {
 						panic(fmt.Sprintf("Missing value for key :%s.", sym))
 					}
-					ss.Let(sym, args[ai])
+					// Only the parameters declared after &key are bound by
+					// keyword. Other keys are allowed and ignored.
+					if lam.isKey(string(sym)) {
+						ss.Let(sym, args[ai])
+					}
 					ai++
 					continue
 				}
@@ -185,6 +186,23 @@ Aux:
 		}
 	}
 	return lam.BoundCall(ss, depth)
+}
+
+// isKey returns true if name is the name of a parameter declared between
+// &key and &aux in the lambda list.
+func (lam *Lambda) isKey(name string) bool {
+	var inKeys bool
+	for _, ad := range lam.Doc.Args {
+		switch {
+		case strings.EqualFold(ad.Name, AmpKey):
+			inKeys = true
+		case strings.EqualFold(ad.Name, AmpAux):
+			inKeys = false
+		case inKeys && strings.EqualFold(ad.Name, name):
+			return ad.Name[0] != '&'
+		}
+	}
+	return false
 }
 
 // BoundCall the the function with the bindings provided.
